@@ -1013,3 +1013,64 @@ def _keepnl(ctx, R):
 
 
 RULES.append(("C01.READLINE", "what a program reads is what standard input holds: the line reader hands every line on unchanged, terminator included (shared with C14.KEEPNL)", _keepnl))
+
+
+
+
+
+def rule_clones(ctx, R):
+    """a copy of a value is the value: `Clone` of the state, the commands, the areas and the numbers is the derived
+    field-by-field copy (or a hand-written one that copies every field from the same field of the original).  The
+    debugger steps on clones, pre-execution rolls back to a clone, commands and numbers are cloned all over."""
+    fb = ctx.fb
+    TYPES = ["core::state::UnOptState", "core::state::OptState", "core::code::UnOptCode", "core::code::OptCode", "core::area::Area", "number::num::Num", "number::big_number::BigNum"]
+    n = 0
+    for ty in TYPES:
+        name = "<%s as core::clone::Clone>::clone" % ty
+        b = fb.bodies.get(name)
+        if not R.anchor(b is not None, "clone:" + ty.rsplit("::", 1)[-1], "impl Clone for %s" % ty):
+            continue
+        R.analyse(name)
+        n += 1
+        derived = "macro:Clone" in (b.raw.get("span", {}).get("exp") or [])
+        why = "derived"
+        ok = derived
+        if not derived:
+            roles = Roles(b, fb, param_roles={1: "P1"})
+            cfg = normal_cfg(b)
+            rets = sorted({roles.of_origin(roles.org.of_place({"l": 0, "proj": []}, r_, "t")) for r_ in cfg.returns})
+            aggs = [st for blk in b.blocks if not blk["cleanup"] for st in blk["stmts"] if st["k"] == "assign" and st["r"]["k"] == "agg" and st["r"].get("agg") == "adt" and str(st["r"].get("adt", "")).endswith(ty.rsplit("::", 1)[-1])]
+            ok = False
+            why = "hand-written: %s" % rets
+            if len(aggs) == 1 and len(rets) == 1 and not cfg.back_edges():
+                names = aggs[0]["r"].get("fields_n", [])
+                # every field is the clone / copy of the same field of the original
+                parts = rets[0][rets[0].index("{") + 1: rets[0].rindex("}")] if "{" in rets[0] else ""
+                want = ["P1.%s" % f for f in names]
+                got = []
+                depth, cur = 0, ""
+                for ch in parts:
+                    if ch == "," and depth == 0:
+                        got.append(cur)
+                        cur = ""
+                    else:
+                        depth += ch in "({" 
+                        depth -= ch in ")}"
+                        cur += ch
+                if cur:
+                    got.append(cur)
+                strip = lambda x: x[len("COPY("):-1] if x.startswith("COPY(") and x.endswith(")") else (x[len("Clone::clone("):-1] if x.startswith("Clone::clone(") and x.endswith(")") else x)
+                ok = [strip(x) for x in got] == want
+                why = "hand-written, fields %s from %s" % (names, [strip(x)[:30] for x in got])
+        R.check(ok, "clone:%s:fieldwise" % ty.rsplit("::", 1)[-1], "a clone of %s carries every field of the original (%s)" % (ty.rsplit("::", 1)[-1], why), b.span)
+    R.floor("clone_impls", n, 7, "Clone impls of the value types", slack=1.0)
+
+
+RULES.append(("C01.CLONE", "cloning a state, a command, an area or a number copies every field (derived Clone or an equivalent hand-written one)", rule_clones))
+
+
+# rules of other properties re-run under this property's name; resolved by rules/main.py once every module can be
+# imported (the owners import this module themselves)
+DEFERRED_BUNDLES = [
+    {'prop': 'C01', 'tag': 'INT', 'module': 'p_c05', 'only': None, 'skip': (), 'why': 'the numbers every command computes with'},
+]
